@@ -1,13 +1,72 @@
-(* C01 — generated parsers implement PEG semantics (placeholder: statements are added below) *)
+(* C01 — Generated parsers implement PEG semantics for the core expressions.
+   ONLY statements, closed by `exact`, each followed by Print Assumptions.
+   MODEL  exec (Model.v): the register machine of the generated code, one clause
+          per _compile, checkpoints emitted/omitted by the two static flags.
+   SPEC   peg  (Spec.v): ordered choice from the same position, greedy bounded
+          repetition, lookahead, Longest = farthest end (first on ties), ...
+   The model is tied to /repo by harness/props/c01.py on every run. *)
 From Coq Require Import List Arith Bool.
 Import ListNotations.
 Require Import Model Spec Refine.
 
+(* The main theorem, statement in full.  For every grammar whose rule bodies
+   are well formed (wf: no Skip item that matches without consuming, at least
+   one alternative in a choice; nothing else for the C01 constructs), every
+   text, every regex oracle, every amount of fuel n, every expression e nested
+   to any depth, every register state s:
+   - the spec runs out of fuel exactly when the model does (left recursion,
+     repetition of a nullable element: both diverge, for every n);
+   - if the spec matches with (v, p') the generated code ends with status
+     true, exactly that value and exactly that position;
+   - if the spec fails the generated code ends with status false, e is not
+     flagged always_succeeds, and if e is flagged "cannot partially succeed"
+     the position register is back where e started (no trace);
+   - the generated code never gets stuck (NameError/TypeError) unless the spec
+     says Raise (names unbound / non-functions applied: outside the property). *)
 Theorem C01_exec_refines_peg :
   forall (g funs : list (list nat * expr)) (named : bool) (ignored : option nat)
          (t : list nat) (rx : nat -> nat -> option nat),
-    (forall (r : nat) (b : expr), nth_error g r = Some ([], b) -> wf g ignored t rx [] b) ->
-    (forall r : nat, ignored = Some r -> exists es : list expr, nth_error g r = Some ([], Skip es)) ->
-    forall n : nat, IHT g funs named ignored t rx n.
+    (forall r b, nth_error g r = Some ([], b) -> wf g ignored t rx [] b) ->
+    (forall r, ignored = Some r -> exists es, nth_error g r = Some ([], Skip es)) ->
+    forall n e sc E s, wf g ignored t rx sc e -> scope_of sc E -> sub E (locals s) ->
+      match peg g ignored t rx n E e (pos s), exec true g funs named ignored t rx n e s with
+      | Fuel, OutOfFuel => True
+      | Raise, _ => True
+      | Match v p', Done s' => status s' = true /\ result s' = v /\ pos s' = p' /\ sub E (locals s')
+      | Fails, Done s' => status s' = false /\ always e = false
+                          /\ (partial true e = false -> pos s' = pos s) /\ sub E (locals s')
+      | _, _ => False
+      end.
 Proof. exact exec_refines_peg. Qed.
 Print Assumptions C01_exec_refines_peg.
+
+(* what the specification says about `|`: every alternative is tried from the
+   SAME position, and the first one that matches is taken *)
+Theorem C01_choice_commits_to_first_match : forall pg e es p v q,
+  pg e p = Match v q -> choice_spec pg (e :: es) p = Match v q.
+Proof. intros pg e es p v q H. cbn. now rewrite H. Qed.
+Print Assumptions C01_choice_commits_to_first_match.
+
+Theorem C01_choice_next_alternative_from_same_position : forall pg e es p,
+  pg e p = Fails -> choice_spec pg (e :: es) p = choice_spec pg es p.
+Proof. intros pg e es p H. cbn. now rewrite H. Qed.
+Print Assumptions C01_choice_next_alternative_from_same_position.
+
+(* non-vacuity: the grammar  start = "a"{2} | "ab"  (the shape on which the
+   shipped List flag was wrong) satisfies the hypotheses, and on "ab" both
+   sides return the second alternative *)
+Definition ex_g : list (list nat * expr) :=
+  [([], Choice [Rep (Str [97] false) (BLit 2) (BLit 2); Str [97; 98] false])].
+Example C01_hypotheses_satisfiable :
+  (forall r b, nth_error ex_g r = Some ([], b) -> wf ex_g None [97; 98] (fun _ _ => None) [] b)
+  /\ peg ex_g None [97; 98] (fun _ _ => None) 10 [] (Ref 0) 0 = Match (VStr [97; 98]) 2.
+Proof.
+  split; [|vm_compute; reflexivity].
+  intros [|[|r]] b H; cbn in H; try discriminate. injection H as <-.
+  cbn. repeat split; auto; discriminate.
+Qed.
+(* with the flag as shipped (list_fixed = false) the model rejects "ab": refuted *)
+Example C01_shipped_list_flag_refuted :
+  match exec false ex_g [] false None [97; 98] (fun _ _ => None) 10 (Ref 0) (fresh 0) with
+  | Done s => status s = false | _ => False end.
+Proof. vm_compute. reflexivity. Qed.
